@@ -51,9 +51,13 @@ pub enum Pipe {
   Last,
   /// debounce with an empty window: the timer task can run as soon as it is scheduled, i.e. while next() is still running
   DebounceZero,
+  /// two sources merged, then handed to the pool: a.merge_threads(b).observe_on_threads(..) / .delay_threads(..)
+  MergeObserveOnTick,
+  MergeDelayTick,
 }
 
 pub const MOVE_PIPES: &[Pipe] = &[Pipe::ObserveOnTick, Pipe::DelayTick];
+pub const MERGE_MOVE_PIPES: &[Pipe] = &[Pipe::MergeObserveOnTick, Pipe::MergeDelayTick];
 
 pub const RATE_PIPES: &[Pipe] = &[Pipe::BufferTime, Pipe::BufferCountTime, Pipe::SampleTick, Pipe::ThrottleAll, Pipe::ThrottleLead, Pipe::ThrottleTailTick, Pipe::DebounceTick, Pipe::DebounceZero];
 
@@ -341,6 +345,22 @@ pub fn build(p: Pipe) -> Rig {
     Pipe::Delay => {
       keep!(cat::hot_tagged_t(0).delay_threads(world::units(1), world::any_sched()).actual_subscribe(probe));
       Rig { feed: feed_tags(vec![0]), ninputs: 1, unsub, subscribe: None, probes: vec![probe], drain: sched_drain, peek: None, extra: vec![] }
+    }
+    Pipe::MergeObserveOnTick | Pipe::MergeDelayTick => {
+      let sd = world::any_sched();
+      let merged = cat::build2_t(Op2::Merge, cat::hot_tagged_t(0), cat::hot_tagged_t(1));
+      if p == Pipe::MergeObserveOnTick {
+        keep!(merged.observe_on_threads(sd).actual_subscribe(probe));
+      } else {
+        keep!(merged.delay_threads(world::units(1), sd).actual_subscribe(probe));
+      }
+      let adv: Rc<dyn Fn()> = Rc::new(|| {
+        world::advance(1);
+      });
+      let poll1: Rc<dyn Fn()> = Rc::new(|| {
+        world::run_fifo_bounded(1);
+      });
+      Rig { feed: feed_tags(vec![0, 1]), ninputs: 2, unsub, subscribe: None, probes: vec![probe], drain: sched_drain, peek: None, extra: vec![("worker: clock +1", adv), ("worker: poll one ready task", poll1)] }
     }
     Pipe::Last => {
       keep!(cat::hot_tagged_t(0).last().actual_subscribe(probe));
@@ -719,7 +739,7 @@ fn c10_preempt_xx(pipes: &[Pipe], nops0: usize, nops: usize, max_preempt: u32, s
     for _ in 0..(if t == 0 { nops0 } else { nops }) {
       // the pool has one worker: only T0 ticks the clock and polls (two threads ticking would make "advance, then
       // poll" non-atomic in a way no serial order of whole ticks reproduces: a delayed poll is not a defect)
-      let one_worker = RATE_PIPES.contains(&p) || MOVE_PIPES.contains(&p);
+      let one_worker = RATE_PIPES.contains(&p) || MOVE_PIPES.contains(&p) || MERGE_MOVE_PIPES.contains(&p);
       // T1 may ask the handle is_closed() instead of drawing another operation
       let op = if sample_closed && t == 1 && e::choose(3) == 0 { TOp::IsClosed } else { draw_op_x(&rig, t == 1, !(one_worker && t == 1)) };
       desc.push(format!("T{}:{}", t, show_op(&op)));
@@ -728,7 +748,7 @@ fn c10_preempt_xx(pipes: &[Pipe], nops0: usize, nops: usize, max_preempt: u32, s
     }
   }
   e::note(format!("{:?}_threads ; {}", p, desc.join(" | ")));
-  if MOVE_PIPES.contains(&p) || matches!(p, Pipe::ObserveOn | Pipe::Delay) {
+  if MOVE_PIPES.contains(&p) || MERGE_MOVE_PIPES.contains(&p) || matches!(p, Pipe::ObserveOn | Pipe::Delay) {
     world::DECOUPLED.with(|d| d.set(true));
     if world::DEADLOCK_CTX.with(|c| c.borrow().is_empty()) {
       world::set_deadlock_ctx(&format!("/{:?}", p));
@@ -979,6 +999,7 @@ pub fn harnesses() -> Vec<HarnessDef> {
   add("c09_threads_preempt", vec!["C09", "C10"], "buffer_with_time, buffer_with_count_and_time, sample(interval), throttle(all), debounce on a thread-safe source: the pool worker's timer callbacks race the source thread at every lock acquisition and inside callbacks; monitors + serialisability (no item or final buffer may be lost while a tick is being delivered)", |t| format!("7 rate-limiting pipelines; 2 threads x {} operations from next/complete/error/unsubscribe/clock tick + poll; <= 3 pre-emptions", if t { 3 } else { 2 }), Box::new(|t| c10_preempt(RATE_PIPES, if t { 3 } else { 2 }, 3)), 3_000_000, 40_000_000);
   add("c07_threads_preempt", vec!["C07", "C10"], "observe_on_threads / delay_threads with the pool worker (FIFO) polling on one logical thread while the source emits on the other: monitors + serialisability (no item or terminal lost, duplicated or reordered by the race)", |t| format!("2 pipelines; T0 (worker + producer) 3 operations, T1 {} from next/complete/error/unsubscribe; clock +1 / poll one task are separate worker operations; <= 3 pre-emptions", if t { 3 } else { 2 }), Box::new(|t| c10_preempt_xx(MOVE_PIPES, 3, if t { 3 } else { 2 }, 3, false)), 3_000_000, 40_000_000);
   add("c17_threads", vec!["C17", "C10"], "is_closed() asked on the returned handle by one logical thread while the other is emitting or terminating (and around unsubscribe()): once it answered true, no notification may start, whatever is still in flight", |_| "10 thread-safe pipelines incl. last(); 2 threads x 2 operations; <= 3 pre-emptions".to_string(), Box::new(|_| c10_preempt_x(C17_PIPES, 2, 3, true)), 3_000_000, 40_000_000);
+  add("c10_merge_move_preempt", vec!["C10", "C07"], "two sources merged and then handed to the pool (merge_threads + observe_on_threads / delay_threads): the worker's steps race the two producers; monitors, serialisability, and a producer's next() must not block on the consumer's running callback", |t| format!("2 pipelines; 2 threads x {} operations; clock +1 / poll one task are worker operations of T0; <= 3 pre-emptions", if t { 3 } else { 2 }), Box::new(|t| c10_preempt(MERGE_MOVE_PIPES, if t { 3 } else { 2 }, 3)), 3_000_000, 40_000_000);
   add("c04_threads_preempt", vec!["C04", "C10"], "the two-input _threads combinators with their two inputs driven by two logical threads: monitors + serialisability (a terminal of one input must not be lost or duplicated while the other input is delivering)", |_| "merge, zip, combine_latest, with_latest_from, take_until, skip_until, sample _threads; 2 threads x 2 operations; <= 3 pre-emptions".to_string(), Box::new(|_| c10_preempt(&[Pipe::Merge, Pipe::Zip, Pipe::CombineLatest, Pipe::WithLatestFrom, Pipe::TakeUntil, Pipe::SkipUntil, Pipe::Sample], 2, 3)), 3_000_000, 40_000_000);
   add("c06_threads", vec!["C06"], "SubjectThreads under two logical threads: every subscriber's log stays well-formed and all subscribers agree on the order", |t| format!("2 threads x {} operations", if t { 3 } else { 2 }), Box::new(|t| c10_preempt(&[Pipe::Subject], if t { 3 } else { 2 }, 3)), 3_000_000, 40_000_000);
   add("c12_threads", vec!["C12"], "BehaviorSubject over SubjectThreads: two producers and a late subscriber; peek() = last value in the common delivery order", |_| "2 threads x 2 operations".to_string(), Box::new(|_| c10_preempt(&[Pipe::Behavior], 2, 3)), 3_000_000, 40_000_000);
